@@ -34,6 +34,7 @@ type Engine struct {
 	traceCalls bool
 	traceInstr bool
 	siteStats  map[string]int
+	stopAfterViol int
 	siteMu     sync.Mutex
 	solverKind string
 	solverTO   int
@@ -133,7 +134,7 @@ func loadEngine(repo string, overlay map[string][]byte, tags string) (*Engine, e
 		allowedPkg: make(map[string]bool),
 		allowedFn:  make(map[string]bool),
 		params:     make(map[string]int),
-		maxSteps:   20_000_000, maxUnwind: 20000, maxValues: 300, maxAlloc: 1 << 22,
+		maxSteps:   60_000_000, maxUnwind: 300000, maxValues: 300, maxAlloc: 1 << 22,
 		maxPaths: 1 << 30, solverKind: "z3", solverTO: 30000, nworkers: 8,
 	}
 	e.cond = sync.NewCond(&e.mu)
@@ -216,7 +217,13 @@ func (w *worker) initStdPackage(m *machine, pkg *ssa.Package) {
 						*cell = &opaque{tag: "global " + g.String()}
 					}
 				}()
-				*cell = m.zero(g.Type().(*types.Pointer).Elem())
+				et := g.Type().(*types.Pointer).Elem()
+				*cell = m.zero(et)
+				if _, isIface := et.Underlying().(*types.Interface); isIface && !w.eng.allowedPkg[pkg.Pkg.Path()] {
+					// globals of non-executed packages (crypto/rand.Reader, ...) are
+					// distinct opaque singletons rather than nil
+					*cell = iface{t: rtErrType, v: &opaque{tag: g.String()}}
+				}
 			}()
 			w.stdGlobals[g] = cell
 		}
@@ -297,6 +304,7 @@ type HarnessResult struct {
 	NontrivPaths int                    `json:"nontrivial_paths"`
 	EngineBugs   []string               `json:"engine_bugs,omitempty"`
 	Nondets      int                    `json:"max_nondets"`
+	StoppedEarly bool                   `json:"stopped_after_violations,omitempty"`
 }
 
 func (e *Engine) runHarness(name string) *HarnessResult {
@@ -347,7 +355,7 @@ func (e *Engine) runHarness(name string) *HarnessResult {
 	}
 	res.SolverS = res.Solver.Time.Seconds()
 	res.WallS = time.Since(t0).Seconds()
-	res.Complete = !e.stopped && len(e.queue) == 0
+	res.Complete = (!e.stopped && len(e.queue) == 0) || res.StoppedEarly
 	sort.Strings(res.Inconclusive)
 	return res
 }
@@ -474,6 +482,10 @@ func (w *worker) record(r pathResult) {
 	case "done", "infeasible", "assume", "exhausted":
 	case "violation", "panic", "deadlock":
 		res.NViolations++
+		if e.stopAfterViol > 0 && res.NViolations >= 40 {
+			e.stopped = true
+			res.StoppedEarly = true
+		}
 		v := m.violation
 		if v == nil {
 			// target panic / deadlock: get a model of the pc
@@ -501,6 +513,10 @@ func (w *worker) record(r pathResult) {
 					out.Nondets = append(out.Nondets, WitnessVal{Name: n.Name, Kind: n.Kind, Value: val, N: n.Extra})
 				}
 				res.Violations = append(res.Violations, out)
+				if e.stopAfterViol > 0 && len(res.Violations) >= e.stopAfterViol {
+					e.stopped = true
+					res.StoppedEarly = true
+				}
 			}
 		}
 	case "enginebug":
